@@ -22,6 +22,16 @@ CLAIMED = {
             "Seeded search over close/cancel instants relative to sends, acks and results; checks that nobody is stranded after ForceClose, that un-acked calls fail retryably (rpc.ErrEngineClosed and the pool/telegram predicates reached through overlay exports) and acked ones do not, and that cancelled calls cause exactly one drop iff sent.",
             "Trusted: as C24; classification is only asserted when no other event raced with the close.",
             "DESIGN.md §6 C26"),
+    "C27": ("pool", "exploration",
+            "deterministic simulation of the real pool.DC over fake connections; invariants on the fakes at every event",
+            "Seeded search over schedules, connection readiness/death instants, caller cancellations and timeouts; invariants checked on the fake connections at every creation and Invoke: live connections <= max, no overlapping Invokes on one connection, no Invoke handed to a connection at a simulated time later than its death.",
+            "Trusted: instrumenter rewrite; fake pool.Conn behaves like manager.Conn within the fault model (Run blocks until death, Ready fires once, Invoke on a dead connection returns ErrConnDead).",
+            "DESIGN.md §6 C27"),
+    "C28": ("pool", "exploration",
+            "deterministic simulation; conservation oracle: after faults stop, `max` probe callers must be served concurrently (rendezvous inside the fake connections)",
+            "Seeded search with cancellations/timeouts aimed at connection creation and hand-over windows plus connection deaths; after the fault phase a probe of `max` simultaneous callers must rendezvous inside Invoke within a simulated hour, otherwise capacity was lost; leaked connections are classified black-box (never used / idle after use).",
+            "Trusted: as C27; the probe is black-box (no pool internals read).",
+            "DESIGN.md §6 C28"),
 }
 
 PURE = {
@@ -85,7 +95,7 @@ def main():
         }],
         "checks": checks,
         "not_applicable": na,
-        "notes": "See DESIGN.md. Exit codes of every check: 0 held, 1 VIOLATION (replay file confirmed in a fresh process), 2 harness/build trouble (never a verdict). known_findings.jsonl lists genuine defects recorded or fixed.",
+        "notes": "See DESIGN.md. Exit codes of every check: 0 held, 1 VIOLATION (replay file confirmed in a fresh process), 2 harness/build trouble (never a verdict). KNOWN_FINDINGS lists genuine defects recorded or fixed.",
     }
     with open(os.path.join(HERE, "MANIFEST.json"), "w") as f:
         json.dump(m, f, indent=1)
